@@ -91,7 +91,12 @@ def build_doc(site, req, params, mal, params2=None):
     defs = {"Gizmo": {"type": "object", "properties": {"g": {"type": "integer"}}},
             "GizmoC": {"type": "object", "properties": {"back": {"$ref": "#/definitions/User"}, "n": {"type": "integer"}}},
             "GizmoX": {"type": "object", "properties": {"gx": {"type": "integer"}},
-                       "x-rust-type": {"crate": CRATE, "version": req, "path": IDENT + "::GizmoX"}}}
+                       "x-rust-type": {"crate": CRATE, "version": req, "path": IDENT + "::GizmoX"}},
+            # two more extensions naming the SAME crate whose requirements no release satisfies / every release satisfies; they sort before and
+            # after everything else: each extension's decision is its own (a declined or accepted one says nothing about the others)
+            "Aardvark": {"type": "object", "properties": {"aa": {"type": "integer"}}, "x-rust-type": {"crate": CRATE, "version": ">=999.0.0", "path": IDENT + "::Aardvark"}},
+            "Zebra": {"type": "object", "properties": {"zz": {"type": "integer"}}, "x-rust-type": {"crate": CRATE, "version": ">=0.0.0", "path": IDENT + "::Zebra"}},
+            "UsesBoth": {"type": "object", "properties": {"a": {"$ref": "#/definitions/Aardvark"}, "z": {"$ref": "#/definitions/Zebra"}}}}
     if site == "member":
         defs["Thing"] = thing
         defs["User"] = {"type": "object", "properties": {"m": {"$ref": "#/definitions/Thing"}}, "required": ["m"]}
